@@ -62,6 +62,8 @@ def _post_pop(engine, st, ctx, out):
                z3.And(z3.BoolVal(len(pops) <= 1 and len(decs) == len(pops) and all(d.meth == "dec" for d in decs)),
                       pops[0].args[0] == ctx["job"].t if pops else True,
                       z3.BoolVal(all(any(h[3] == "_lock" for h in p.held) for p in [e for e in st.trace if e.kind == "mutate"]))), ["C12", "C20", "C05"]))
+    cl.append(("the gauge moves in the same critical section as the list (RETRY_QUEUE = number of queued jobs whenever the executor lock is free: never negative on the way)", "MI",
+               z3.BoolVal(all(any(h[3] == "_lock" and h[2] is not None and z3.is_true(z3.simplify(h[2] == _owner_sid(st, ctx))) for h in (e.held or [])) for e in decs)), ["C20"]))
     if not pops and not isinstance(out, Raise):
         # not found: only if the job is nowhere in the list (k arbitrary position at lock time)
         snap = st.ghost.get("jobs@acquire")
@@ -99,7 +101,9 @@ def _post_append(engine, st, ctx, out):
              z3.And(z3.BoolVal(not isinstance(out, Raise) and len(apps) == 1 and apps[0].meth == "append" and len(incs) == 1 and incs[0].meth == "inc"
                                and any(h[3] == "_lock" for h in apps[0].held)),
                     apps[0].args[0] == ctx["job"].t if apps else False,
-                    apps[0].recv == Val.id(st.get("_jobs", ctx["sid"])) if apps else False), ["C05", "C20", "C12"])]
+                    apps[0].recv == Val.id(st.get("_jobs", ctx["sid"])) if apps else False), ["C05", "C20", "C12"]),
+            ("the gauge moves in the same critical section as the list (RETRY_QUEUE = number of queued jobs whenever the executor lock is free)", "MI",
+             z3.BoolVal(all(any(h[3] == "_lock" and h[2] is not None and z3.is_true(z3.simplify(h[2] == _owner_sid(st, ctx))) for h in (e.held or [])) for e in incs)), ["C20"])]
 
 
 # ---- _get_next_job ----------------------------------------------------------------------------------
@@ -163,6 +167,11 @@ def _post_next(engine, st, ctx, out):
     return cl
 
 
+def _owner_sid(st, ctx):
+    """id of the executor whose lock must be the one held (the shutdown gate's lock has the same field name)."""
+    return ctx["sid"]
+
+
 UNITS = [
     Unit("RetryExecutor._pop_job", "retry.RetryExecutor._pop_job", ["C12", "C20", "C05", "C18"], _setup_pop, _post_pop, cfg=_cfg_pop2, self_cls="RetryExecutor"),
     Unit("RetryExecutor._append_job", "retry.RetryExecutor._append_job", ["C05", "C20", "C12"], _setup_append, _post_append, cfg=_cfg_exec, self_cls="RetryExecutor"),
@@ -210,6 +219,7 @@ def _post_submit_now(engine, st, ctx, out):
     saw_done = any(a == "job.future.done()" and b for a, b in st.decisions)
     if saw_done:
         cl.append(("a future that is already done (cancelled) is never (re-)submitted to the delegate", "PC", z3.BoolVal(not subs and not apps), ["C06", "C05"]))
+        cl.append(("RETRY_TOTAL counts submissions only: nothing is counted for a job that is dropped instead of being retried", "PC", z3.BoolVal(not rtot), ["C20"]))
         return cl
     if not subs:
         cl.append(("a pending future's idle job is submitted", "PC", z3.BoolVal(False), ["C05", "C03"]))
@@ -305,7 +315,8 @@ def _post_cancel(engine, st, ctx, out):
         cl.append(("cancel between retries / before the first hand-over: the idle job is removed and cancel succeeds", "PC",
                    z3.And(z3.BoolVal(len(pops) == 1 and not dcalls), r, st.get("future", Val.id(pops[0].args[0])) == ctx["fut"].t,
                           idle(st, pops[0].args[0])), ["C06", "C05"]))
-        cl.append(("RETRY_QUEUE gauge is decremented when cancel removes a queued job", "PC", z3.BoolVal(len(qdec) == 1), ["C20"]))
+        cl.append(("RETRY_QUEUE gauge is decremented when cancel removes a queued job, in the same critical section", "PC",
+                   z3.And(z3.BoolVal(len(qdec) == 1), z3.BoolVal(all(any(h[3] == "_lock" and h[2] is not None and z3.is_true(z3.simplify(h[2] == _owner_sid(st, ctx))) for h in (e.held or [])) for e in qdec))), ["C20"]))
         return cl
     cl.append(("an in-flight attempt: stop_retry is set under the executor lock BEFORE the delegate is asked to cancel (ends retrying even if cancel fails)", "PC",
                z3.BoolVal(len(dcalls) == 1 and len(sw) == 1 and sw[0][0] < dcalls[0][0] and any(h[3] == "_lock" for h in sw[0][1].held)
@@ -461,3 +472,9 @@ def _post_loop(engine, st, ctx, out):
 
 
 UNITS.append(Unit("_submit_loop", "retry._submit_loop", ["C05", "C03", "C06", "C11", "C12", "C18"], _setup_loop, _post_loop, cfg=_cfg_loop))
+
+REPLAYS = [("C02", "RetryExecutor._cancel", "replay/c02_retry_cancel_orphan.py"), ("C18", "RetryExecutor._cancel", "replay/c02_retry_cancel_orphan.py"),
+           ("C06", "RetryExecutor._cancel", "replay/c02_retry_cancel_orphan.py"),
+           ("C20", "RetryExecutor._cancel", "replay/c20_retry_queue_cancel.py"), ("C12", "RetryExecutor._cancel", "replay/c20_retry_queue_cancel.py"),
+           ("C18", "_submit_loop", "replay/c18_retry_stop_retry_race.py"), ("C03", "_submit_loop", "replay/c18_retry_stop_retry_race.py"),
+           ("C05", "_submit_loop", "replay/c18_retry_stop_retry_race.py"), ("C11", "_submit_loop", "replay/c18_retry_stop_retry_race.py")]
